@@ -249,6 +249,10 @@ class CaseInterp:
                     return l + r
                 if op == 'AddWithOverflow':
                     return ('tuple', [l + r, False])
+            order = self.ext.get('#order')
+            if order and op in ('Lt', 'Le', 'Gt', 'Ge') and all(isinstance(x, tuple) and x[:1] == ('atom',) and x[1] in order for x in (l, r)):
+                i, j = order.index(l[1]), order.index(r[1])   # the case says how these atoms are ordered
+                return {'Lt': i < j, 'Le': i <= j, 'Gt': i > j, 'Ge': i >= j}[op]
             # the length of a modelled container is only known to be zero or not zero
             for x, y, o in ((l, r, op), (r, l, {'Lt': 'Gt', 'Gt': 'Lt', 'Le': 'Ge', 'Ge': 'Le'}.get(op, op))):
                 if isinstance(x, tuple) and x[:1] == ('len',) and isinstance(x[1], tuple) and x[1][:1] == ('array',) and isinstance(y, int) and not isinstance(y, bool):
@@ -443,6 +447,18 @@ class CaseInterp:
                 return ('pipe', src, stages + [(n, a[1])])
             if n == 'count' and len(a) == 1:
                 return ('count', a[0])
+            if n in ('any', 'all') and len(a) == 2 and isinstance(src, tuple) and src[:1] == ('array',) and '#classes' in src[1]:
+                # the source is known by the classes of elements present in it (not by its length): `any` / `all` of a predicate that only
+                # depends on the class of an element is determined by that
+                verdicts = []
+                for cname, elem in src[1]['#classes'].items():
+                    outs, _ = pipe_outputs(self.F, self.ext, a[0], elem, ('atom', 'POSITION_OF_' + cname))
+                    for o in outs:
+                        r = self.apply(a[1], [o])
+                        if not isinstance(r, bool):
+                            raise Unknown('predicate of %s' % n)
+                        verdicts.append(r)
+                return any(verdicts) if n == 'any' else all(verdicts)
             if n == 'next' and len(a) == 1 and '#next' in self.ext:
                 return self.ext['#next'](a[0])
             if n in ('position', 'find', 'find_map', 'any') and len(a) == 2 and '#search' in self.ext:
@@ -626,6 +642,48 @@ class CaseInterp:
             else:
                 raise Unknown('terminator ' + k)
         raise Unknown('loop (or more than 400 steps)')
+
+
+def pipe_outputs(F, ext, pipe, elem, idx):
+    """what the pipeline yields for ONE source element `elem` at position `idx` -> (list of outputs, reversed?)"""
+    ci = CaseInterp.bare(F, ext)
+    vals, filtered, rev = [elem], False, False
+    for st in pipe[2]:
+        k = st[0]
+        nv = []
+        if k == 'rev':
+            rev = not rev
+            continue
+        for v in vals:
+            if k == 'enumerate':
+                if filtered or rev:
+                    raise Unknown('enumerate after a filtering or reversing stage: the position is not the position in the source')
+                nv.append(('tuple', [idx, v]))
+            elif k == 'map':
+                nv.append(ci.apply(st[1], [v]))
+            elif k == 'filter':
+                r = ci.apply(st[1], [v])
+                if not isinstance(r, bool):
+                    raise Unknown('filter predicate')
+                if r:
+                    nv.append(v)
+            elif k in ('filter_map', 'flat_map'):
+                r = ci.apply(st[1], [v])
+                if not is_opt(r):
+                    raise Unknown(k + ' result')
+                if r[0] == 'some':
+                    nv.append(r[1])
+            elif k == 'flatten':
+                if not is_opt(v):
+                    raise Unknown('flatten of a non-Option')
+                if v[0] == 'some':
+                    nv.append(v[1])
+            else:
+                raise Unknown('stage ' + k)
+        if k in ('filter', 'filter_map', 'flat_map', 'flatten'):
+            filtered = True
+        vals = nv
+    return vals, rev
 
 
 def pl_local_missing(vals, l):
